@@ -3,6 +3,7 @@ C11 — operator results do not depend on the cost model.
 -/
 import ClvmProofs.Lemmas.Interp.ModelIndep
 import ClvmProofs.Lemmas.Interp.LiftModel
+import ClvmProofs.Lemmas.Interp.ModelGuard
 
 namespace Clvm.Props.C11
 open Clvm Clvm.Interp
@@ -42,5 +43,34 @@ theorem whole_program_value_model_partial (cfg : Cfg) (extra : String → Option
     (h2 : runProgram cfg (chiaDialect cfg extra (F ||| Gen.FLAG_NEW_COST_MODEL)) fuel2 c0 p e M2 = some (.ok r2)) :
     r1.2 = r2.2 :=
   eval_value_model_partial cfg extra hmi hre F hF hKec h1 h2
+
+/-- **Whole programs (full statement).** For every build configuration, every flag set `F` without
+NEW_COST_MODEL (with or without ENABLE_KECCAK_OPS_OUTSIDE_GUARD — no restriction on which operator sets
+the guards install), every well-formed program and environment, every pair of budgets and fuels: a
+program that succeeds under `F` (old cost model) and under `F ∪ NEW_COST_MODEL` returns the same value
+and leaves the same allocator counters; only the costs may differ.
+
+Softfork guards are treated as black boxes (`C31.guard_program_complete`, from the frame theorem of
+`Lemmas/Interp/BigStep.lean`): inside a guard the two runs need not be in lock-step — extension 0 is
+`Bls` in the old model and the cost-exempt `PreHardFork` in the new one, so opcode 62 is an unknown
+operator in one run and keccak256 in the other, the guard costs differ and so do the declared-cost
+checks — but both runs succeeded, so each outermost guard completed in each run, and a completed guard
+leaves nil and the counters of its entry.  Nested guards are inside the black box.
+
+Hypotheses on the operators outside the core table are those of the partial theorem plus `OpWf`
+(well-formed results, heap limit kept; proved for `cryptoExtra` in `Lemmas/Interp/HideCrypto.lean`,
+`cryptoExtra_wf`), which makes the heap limit constant along a run; `p.wf` / `e.wf` hold for every value
+built by `node_from_bytes` (`Val.ofTree`). -/
+theorem whole_program_value_model (cfg : Cfg) (extra : String → Option OpFn)
+    (hmi : ∀ name f, extra name = some f → OpModelIndep f)
+    (hre : ∀ name f, extra name = some f → OpRestrict f)
+    (hwf : ∀ name f, extra name = some f → OpWf f)
+    (F : Nat) (hF : hasFlag F Gen.FLAG_NEW_COST_MODEL = false)
+    {fuel1 fuel2 : Nat} {c0 : Ctr} {p e : Val} {M1 M2 : Nat} (hp : p.wf = true) (he : e.wf = true)
+    {r1 r2 : Nat × Val × Ctr}
+    (h1 : runProgram cfg (chiaDialect cfg extra F) fuel1 c0 p e M1 = some (.ok r1))
+    (h2 : runProgram cfg (chiaDialect cfg extra (F ||| Gen.FLAG_NEW_COST_MODEL)) fuel2 c0 p e M2 = some (.ok r2)) :
+    r1.2 = r2.2 :=
+  eval_value_model cfg extra hmi hre hwf F hF hp he h1 h2
 
 end Clvm.Props.C11
